@@ -20,6 +20,10 @@ import ModVerif.Proofs.EditRefineInvWork
 import ModVerif.Proofs.EditMoreSepG
 import ModVerif.Proofs.EditMoreSepJ
 import ModVerif.Proofs.EditMoreComD
+import ModVerif.Proofs.EditWorkSorted
+import ModVerif.Proofs.EditWorkSession
+import ModVerif.Proofs.EditWorkPermE
+import ModVerif.Proofs.EditWorkKeepB
 namespace ModVerif.Props.C16
 open ModVerif ModVerif.EditSpec ModVerif.Modfile
 
@@ -107,9 +111,8 @@ theorem setUse_exact (e e' : Edit.EWork) (dirs : List (Bytes × Bytes)) (perm : 
 
 /-- **perm_independent (partial: typed lists).**  Two runs of a bulk setter that differ only in the map-iteration
     order succeed or fail together, and leave the same typed lists: every list equal, the requirements (uses) the same
-    multiset — equal per path.  Missing for the full statement (`Format` of the two trees is the same byte string):
-    that the new lines all land in one block and `SortBlocks` puts them in token order
-    (`sort_lineLess_perm_invariant` below is the list-level half). -/
+    multiset — equal per path — under the line-id invariant `TInv` alone.  The full statement (`Format` of the two trees is
+    the same byte string, under the tree invariant) is `perm_independent` below. -/
 theorem perm_independent_partial (e : Edit.EFile) (w : Edit.EWork) (want : List Edit.Want) (dirs : List (Bytes × Bytes))
     (p1 p2 : List Edit.Want → List Edit.Want) (q1 q2 : List (Bytes × Bytes) → List (Bytes × Bytes))
     (hp1 : ∀ l, (p1 l).Perm l) (hp2 : ∀ l, (p2 l).Perm l) (hq1 : ∀ l, (q1 l).Perm l) (hq2 : ∀ l, (q2 l).Perm l)
@@ -369,7 +372,7 @@ theorem setRequireSeparateIndirect_tree_exact (e e' : Edit.EFile) (want : List E
     SortBlocks on a state that satisfies the tree invariant (`Edit.setRequire_presort`,
     `Edit.setRequireSeparateIndirect_presort`), so in their result EVERY block — exclude blocks under the semantic order
     included — is sorted by the comparator the code selects for it.  With `blocks_sorted_partial2` (SortBlocks itself,
-    AddTool) this covers every go.mod operation that sorts.  Still missing for the full statement: go.work. -/
+    AddTool) this covers every go.mod operation that sorts; go.work: `blocks_sorted_work` below. -/
 theorem blocks_sorted_partial3 (e e' : Edit.EFile) (want : List Edit.Want) (perm : List Edit.Want → List Edit.Want)
     (hperm : ∀ l, (perm l).Perm l) (hg : Edit.GoodWant want) (hi : Edit.Inv e)
     (hlive : ∀ r ∈ e.f.require, Edit.liveRq r = true) (hset : Edit.NoNestedIndirectMarker e)
@@ -470,5 +473,191 @@ example :
             x.before.map (·.token) == [B "// keep"] && x.suffix.map (·.token) == [B "// why"])
         | _, _ => false)
      | .error _ => false) = true := by decide +kernel
+
+/-! ### blocks_sorted for go.work (Proofs/EditWorkSorted.lean) -/
+
+/-- **blocks_sorted, go.work: one operation.**  `WorkFile.SortBlocks` is `removeDups` (replacements) followed by
+    `sortStmts false true`: every block is sorted by `lineLess`, whatever its verb.  A go.work operation that ends with it
+    (`Edit.SortsW`: SortBlocks itself, SetUse) leaves EVERY block of the tree sorted by `lineLess` (a strict weak order on all
+    token lists, `lineLess_strict_total`) — no hypothesis on the state. -/
+theorem op_blocks_sorted_work (e e' : Edit.EWork) (op : Edit.Op) (hs : Edit.SortsW op = true)
+    (h : Edit.applyWork e op = some (.ok e')) (b : LineBlock) (hb : Expr.lineBlock b ∈ e'.f.syn.stmts) :
+    Sorted (Edit.onToken (Edit.lessFor false true b.token)) b.lines ∧ Edit.lessFor false true b.token = Edit.lineLess := by
+  rw [Edit.lessFor_work]
+  exact ⟨Edit.applyWork_sorts e e' op hs h b hb, rfl⟩
+
+/-- **blocks_sorted, go.work sessions.**  A session of go.work operations (any arguments, any starting state — e.g.
+    `Edit.loadWork f` for a parsed `f`) whose last operation ends with SortBlocks and that runs to completion leaves every
+    block of the tree sorted by `lineLess`; the final Cleanup, which only deletes lines, keeps every block sorted
+    (`Edit.cleanupStmts_block`).  With `blocks_sorted_partial2` / `blocks_sorted_partial3` (go.mod) every sorting operation of
+    both file kinds is covered; the documented exclude order fails for pre-release go versions
+    (`C16_violated_exclude_order_go_prerelease`). -/
+theorem blocks_sorted_work (e e' : Edit.EWork) (ops : List Edit.Op) (op : Edit.Op) (res : List Bool)
+    (hs : Edit.SortsW op = true) (h : Edit.runOps Edit.applyWork e (ops ++ [op]) [] 0 = .done e' res) :
+    (∀ b, Expr.lineBlock b ∈ e'.f.syn.stmts → Sorted (Edit.onToken (Edit.lessFor false true b.token)) b.lines) ∧
+    (∀ b, Expr.lineBlock b ∈ (Edit.workCleanup e').f.syn.stmts →
+      Sorted (Edit.onToken (Edit.lessFor false true b.token)) b.lines) := by
+  simp only [Edit.lessFor_work]
+  exact Edit.blocks_sorted_work e e' ops op res hs h
+
+/-- non-vacuity of `blocks_sorted_work` / `op_blocks_sorted_work`: a parsed go.work with an unsorted `use` block; a session
+    ending with SetUse (both map-iteration orders) completes, and the block holds the requested directories in `lineLess` order -/
+example :
+    (match parseWork (B "go.work") (B "go 1.21\n\nuse (\n\t./z\n\t./b\n\t./m\n)\n") none with
+     | .ok f =>
+       [true, false].all fun rev =>
+       (match Edit.runOps Edit.applyWork (Edit.loadWork f)
+           ([.addUse (B "./c") [], .cleanup] ++ [.setUse [(B "./z", []), (B "./a", []), (B "./m", []), (B "./c", [])] rev]) [] 0 with
+        | .done e res => res.all id &&
+            Edit.blocksOf (Edit.workCleanup e).f.syn == [([B "use"], [[B "./a"], [B "./c"], [B "./m"], [B "./z"]])]
+        | _ => false)
+     | .error _ => false) = true := by decide +kernel
+
+/-! ### comments_survive along a session (Proofs/EditWorkSession.lean) -/
+
+/-- **comments_survive_session: `comments_survive` composed with `untouched_lines_survive` along a session.**  Session
+    `ops1 ++ [bulk setter, Cleanup] ++ ops2` (`Edit.bulkOp sep want rev` = SetRequireSeparateIndirect if `sep`, else SetRequire)
+    from a state satisfying the tree invariant, every operation with valid arguments in the state in which it runs
+    (`Edit.RunValid`), run to completion.  `x0`: a line of the STARTING tree that `ops1` spares (`Edit.Spared`, as in
+    `Props.C08.untouched_lines_survive`) and that is, in the state `e1` in which the setter runs, the line of the FIRST
+    requirement `r` of a requested path (`w ∈ want`, `w.path = r.mod.path`).  If no operation of `ops2` names the rewritten
+    line `require <path> <requested version>` (`Edit.Targets`: a condition on the operations only), then after the final
+    Cleanup the tree has a line with exactly these tokens that carries
+    * every non-blank `Before` comment of `x0` (`Edit.BeforeKept`), and
+    * the end-of-line comments the line had when the setter ran — `x1.suffix`, of which `x0.suffix` is a sublist — as
+      `setIndirect` rewrites them (`Edit.sfxAfter`, `sfxAfter_rewrites_marker_only`).
+    `x1` is the line in `e1` (same id, same tokens).  Not shown: `x1.suffix = x0.suffix` (the `Keeps` relation of
+    Proofs/EditMoreKeepA.lean only records sublists, because Cleanup appends a collapsed block's own suffix comments —
+    which the invariant excludes, but the primitives are not restated for equality). -/
+theorem comments_survive_session (e e1 e' : Edit.EFile) (ops1 ops2 : List Edit.Op) (sep rev : Bool) (want : List Edit.Want)
+    (res res1 : List Bool) (hi : Edit.Inv e) (hv : Edit.RunValid e (ops1 ++ Edit.bulkOp sep want rev :: .cleanup :: ops2))
+    (h : Edit.runOps Edit.applyMod e (ops1 ++ Edit.bulkOp sep want rev :: .cleanup :: ops2) [] 0 = .done e' res)
+    (h1 : Edit.runOps Edit.applyMod e ops1 [] 0 = .done e1 res1)
+    (d : List Require) (r : Require) (t : List Require) (hsplit : e1.f.require = d ++ r :: t)
+    (hfirst : ∀ r' ∈ d, r'.mod.path ≠ r.mod.path) (w : Edit.Want) (hw : w ∈ want) (hwp : w.path = r.mod.path)
+    (x0 : Edit.XLine) (hx0 : x0 ∈ Edit.viewX e.f.syn.stmts) (hid0 : x0.id = r.lineId)
+    (hsp1 : Edit.Spared x0.toks x0.id e ops1)
+    (hsp2 : ∀ op ∈ ops2, ¬Edit.Targets op [B "require", autoQuote r.mod.path, w.vers]) :
+    ∃ x1 ∈ Edit.viewX e1.f.syn.stmts, (x1.id = x0.id ∧ x1.toks = x0.toks ∧ x0.before.Sublist x1.before ∧
+        x0.suffix.Sublist x1.suffix) ∧
+      ∃ x' ∈ Edit.viewX (Edit.cleanup e').f.syn.stmts, x'.toks = [B "require", autoQuote r.mod.path, w.vers] ∧
+        Edit.BeforeKept x0.before x'.before ∧ (Edit.sfxAfter w.indirect x1.suffix).Sublist x'.suffix :=
+  Edit.comments_survive_session e e1 e' ops1 ops2 sep rev want res res1 hi hv h h1 d r t hsplit hfirst w hw hwp x0 hx0 hid0
+    hsp1 hsp2
+
+/-- a static form of `Props.C08.untouched_lines_survive` used for `ops2` above: `Edit.Targets` depends on the operation and
+    the tokens only; SortBlocks' de-duplication (the state-dependent part of `Edit.Spared`) only ever removes `exclude`,
+    `replace` and `tool` lines (`Edit.Inv.not_killed_of_verb`), so for every other line "no operation names its tokens" is enough -/
+theorem untouched_lines_survive_static (e e' : Edit.EFile) (ops : List Edit.Op) (res : List Bool) (hi : Edit.Inv e)
+    (hv : Edit.RunValid e ops) (h : Edit.runOps Edit.applyMod e ops [] 0 = .done e' res)
+    (x : Edit.XLine) (hx : x ∈ Edit.viewX e.f.syn.stmts) (hnt : ∀ op ∈ ops, ¬Edit.Targets op x.toks)
+    (hnd : Edit.NotDedupVerb x.toks) :
+    ∃ x' ∈ Edit.viewX (Edit.cleanup e').f.syn.stmts, x'.id = x.id ∧ x'.toks = x.toks ∧ x.before.Sublist x'.before ∧
+      x.suffix.Sublist x'.suffix :=
+  Edit.untouched_lines_survive_static e e' ops res hi hv h x hx hnt hnd
+
+/-- non-vacuity of `comments_survive_session` / `untouched_lines_survive_static`, for both setters: the requirement `a` of a
+    parsed file carries `// keep` and `// indirect; why`; `ops1` (go line, an exclude, Cleanup) spares it (`Edit.sparedB`), it is
+    the first requirement when the setter runs, `ops2` names no `require` line (`Edit.opVerb`, sound by `Edit.targets_verb`);
+    the whole session has valid arguments (`Edit.runValidB`), completes, and the final line `require a v1.2.0` carries
+    `// keep` and the payload `// why` -/
+example :
+    (match parseStrict (B "go.mod") (B "module m\n\nrequire (\n\t// keep\n\ta v1.0.0 // indirect; why\n\tb v1.0.0\n)\n") none with
+     | .ok f =>
+       let e := Edit.load f
+       let want : List Edit.Want := [⟨B "a", B "v1.2.0", false⟩, ⟨B "c", B "v1.0.0", true⟩]
+       let ops1 : List Edit.Op := [.addGo (B "1.21"), .addExclude (B "x") (B "v1.0.0"), .cleanup]
+       let ops2 : List Edit.Op := [.addTool (B "t"), .dropExclude (B "x") (B "v1.0.0")]
+       [true, false].all fun sep =>
+       Edit.invB e && Edit.runValidB e (ops1 ++ Edit.bulkOp sep want true :: .cleanup :: ops2) &&
+       ops2.all (fun op => Edit.opVerb op != some (B "require")) &&
+       (match Edit.runOps Edit.applyMod e ops1 [] 0,
+              Edit.runOps Edit.applyMod e (ops1 ++ Edit.bulkOp sep want true :: .cleanup :: ops2) [] 0 with
+        | .done e1 _, .done e' _ =>
+          (match e1.f.require with
+           | r :: _ => r.mod.path == B "a" &&
+             (Edit.viewX e.f.syn.stmts).any (fun x0 => x0.id == r.lineId && Edit.sparedB x0.toks x0.id e ops1 &&
+               x0.before.map (·.token) == [B "// keep"] && x0.suffix.map (·.token) == [B "// indirect; why"])
+           | [] => false) &&
+          (Edit.viewX (Edit.cleanup e').f.syn.stmts).any (fun x => x.toks == [B "require", B "a", B "v1.2.0"] &&
+            x.before.map (·.token) == [B "// keep"] && x.suffix.map (·.token) == [B "// why"])
+        | _, _ => false)
+     | .error _ => false) = true := by decide +kernel
+
+/-! ### perm_independent on the formatted file (Proofs/EditWorkPerm{,A,B,C,D}.lean) -/
+
+/-- **perm_independent.**  Two runs of `SetRequire want`, of `SetRequireSeparateIndirect want`, of `SetUse dirs` from the same
+    state — tree invariant, live requirements (uses), hypotheses as for `setRequire_tree_exact` /
+    `setRequireSeparateIndirect_tree_exact` / `setUse_tree_exact` — that differ only in the map-iteration order give the SAME
+    BYTE STRING under `Format`, directly after the call and after Cleanup.  Why: the entries still missing after the loop over
+    the existing ones are added by `addLine` with the nil hint and all land in ONE statement — the last statement with the
+    verb, which becomes / is a block, or a new block at the end of the file (`Edit.addMany_block` / `addMany_line` /
+    `addMany_none`) — resp., for SetRequireSeparateIndirect, are appended by index to the direct and the indirect block
+    (`Edit.appendMany_get`); their tokens are pairwise different (distinct paths, `Edit.autoQuote_injective`); SortBlocks sorts
+    these `require` / `use` blocks by `lineLess`, total on tokens, and the stable sort is determined by the multiset and the
+    order inside each class of equal tokens (`sortBy_stable`, `sorted_stable_unique`, `sortBy_append_perm_invariant`); so the
+    two trees are equal up to the line ids the call handed out (`Edit.setRequire_tree_perm_independent`, `Edit.normStmt`), which
+    `Format` and Cleanup do not look at (`Edit.format_norm`, `Edit.cleanupStmts_norm`). -/
+theorem perm_independent :
+    (∀ (e e1 e2 : Edit.EFile) (want : List Edit.Want) (p1 p2 : List Edit.Want → List Edit.Want),
+      (∀ l, (p1 l).Perm l) → (∀ l, (p2 l).Perm l) → Edit.GoodWant want → Edit.Inv e →
+      (∀ r ∈ e.f.require, Edit.liveRq r = true) → Edit.NoNestedIndirectMarker e →
+      ((Edit.setRequire e want p1 = .ok e1 → Edit.setRequire e want p2 = .ok e2 →
+        format e1.f.syn = format e2.f.syn ∧ format (Edit.cleanup e1).f.syn = format (Edit.cleanup e2).f.syn) ∧
+       (Edit.setRequireSeparateIndirect e want p1 = .ok e1 → Edit.setRequireSeparateIndirect e want p2 = .ok e2 →
+        format e1.f.syn = format e2.f.syn ∧ format (Edit.cleanup e1).f.syn = format (Edit.cleanup e2).f.syn))) ∧
+    (∀ (w w1 w2 : Edit.EWork) (dirs : List (Bytes × Bytes)) (q1 q2 : List (Bytes × Bytes) → List (Bytes × Bytes)),
+      (∀ l, (q1 l).Perm l) → (∀ l, (q2 l).Perm l) → Edit.GoodUse dirs → Edit.InvW w →
+      (∀ u ∈ w.f.use, Edit.liveU u = true) →
+      Edit.setUse w dirs q1 = .ok w1 → Edit.setUse w dirs q2 = .ok w2 →
+      format w1.f.syn = format w2.f.syn ∧ format (Edit.workCleanup w1).f.syn = format (Edit.workCleanup w2).f.syn) :=
+  ⟨fun e e1 e2 want p1 p2 hp1 hp2 hg hi hlive hset =>
+     ⟨fun h1 h2 => Edit.setRequire_format_perm_independent e e1 e2 want p1 p2 hp1 hp2 hg hi hlive hset h1 h2,
+      fun h1 h2 => Edit.setRequireSeparateIndirect_format_perm_independent e e1 e2 want p1 p2 hp1 hp2 hg hi hlive hset h1 h2⟩,
+   fun w w1 w2 dirs q1 q2 hq1 hq2 hg hi hlive h1 h2 =>
+     Edit.setUse_format_perm_independent w w1 w2 dirs q1 q2 hq1 hq2 hg hi hlive h1 h2⟩
+
+/-- the tree-level form: the two trees are equal once every line id `≥ e.next` (those handed out by the call) is erased -/
+theorem setRequire_tree_perm_independent (e e1 e2 : Edit.EFile) (want : List Edit.Want) (p1 p2 : List Edit.Want → List Edit.Want)
+    (hp1 : ∀ l, (p1 l).Perm l) (hp2 : ∀ l, (p2 l).Perm l) (hg : Edit.GoodWant want) (hi : Edit.Inv e)
+    (hlive : ∀ r ∈ e.f.require, Edit.liveRq r = true) (hset : Edit.NoNestedIndirectMarker e)
+    (h1 : Edit.setRequire e want p1 = .ok e1) (h2 : Edit.setRequire e want p2 = .ok e2) :
+    e1.f.syn.stmts.map (Edit.normStmt e.next) = e2.f.syn.stmts.map (Edit.normStmt e.next) :=
+  Edit.setRequire_tree_perm_independent e e1 e2 want p1 p2 hp1 hp2 hg hi hlive hset h1 h2
+
+/-- the list-level core: appending lines with pairwise different tokens to a block in two different orders (and under
+    different fresh ids: `f` erases them) gives the same `lineLess`-sorted block up to `f` -/
+theorem stableSort_append_perm_invariant (f : Line → Line) (hf : ∀ l, (f l).token = l.token) (old new1 new2 : List Line)
+    (hp : (new1.map f).Perm (new2.map f)) (hd : new1.Pairwise (fun a b => a.token ≠ b.token)) :
+    (Edit.stableSort Edit.lineLess (old ++ new1)).map f = (Edit.stableSort Edit.lineLess (old ++ new2)).map f :=
+  Edit.stableSort_lineLess_perm_invariant_modIds f hf old new1 new2 hp hd
+
+/-- non-vacuity of `perm_independent` / `setRequire_tree_perm_independent`: a parsed go.mod (two requirement statements,
+    comments) after Cleanup satisfies the hypotheses (`Edit.invB`, `Edit.bulkOKB`), both requirement setters with three missing
+    entries succeed in both orders, the two trees differ (the fresh ids) and the formatted files agree; same for a go.work
+    and SetUse (`Edit.invWB`, `Edit.goodUseB`) -/
+example :
+    (match parseStrict (B "go.mod") (B "module m\n\nrequire (\n\t// keep\n\ta v1.0.0 // indirect; why\n\tb v1.0.0\n)\n\nrequire c v1.0.0\n") none with
+     | .ok f =>
+       let e := Edit.cleanup (Edit.load f)
+       let want : List Edit.Want := [⟨B "z", B "v1.0.0", true⟩, ⟨B "a", B "v1.2.0", false⟩, ⟨B "d", B "v1.0.0", false⟩, ⟨B "k", B "v0.1.0", true⟩]
+       Edit.invB e && Edit.bulkOKB e want &&
+       (match Edit.setRequire e want (Edit.permOf false), Edit.setRequire e want (Edit.permOf true) with
+        | .ok e1, .ok e2 => e1.f.syn != e2.f.syn && format e1.f.syn == format e2.f.syn
+        | _, _ => false) &&
+       (match Edit.setRequireSeparateIndirect e want (Edit.permOf false), Edit.setRequireSeparateIndirect e want (Edit.permOf true) with
+        | .ok e1, .ok e2 => e1.f.syn != e2.f.syn && format e1.f.syn == format e2.f.syn
+        | _, _ => false)
+     | .error _ => false) = true ∧
+    (match parseWork (B "go.work") (B "go 1.21\n\nuse ./m\n") none with
+     | .ok f =>
+       let w := Edit.workCleanup (Edit.loadWork f)
+       let dirs : List (Bytes × Bytes) := [(B "./z", []), (B "./a", []), (B "./m", [])]
+       Edit.invWB w && Edit.goodUseB dirs && w.f.use.all Edit.liveU &&
+       (match Edit.setUse w dirs (Edit.permOf false), Edit.setUse w dirs (Edit.permOf true) with
+        | .ok w1, .ok w2 => w1.f.syn != w2.f.syn && format w1.f.syn == format w2.f.syn
+        | _, _ => false)
+     | .error _ => false) = true := by
+  constructor <;> decide +kernel
 
 end ModVerif.Props.C16
